@@ -1,3 +1,211 @@
-(** C12 - placeholder while the development is being built *)
-From Dashu Require Import Base.Prelude Int.GrlSpec.
+(** C12 - gcd, integer roots and integer logarithms satisfy their defining inequalities;
+    log2_bounds encloses; remove() strips the full power.
+    ONLY statements pinned here; proofs live in Dashu.Int.Grl*. *)
+From Dashu Require Import Base.Prelude Int.GrlSpec Int.GrlModel Int.GrlSpecProof Int.GrlRootProof
+  Int.GrlLogProof Int.GrlRemoveProof Int.GrlSqrtProof.
+From Coq Require Import Znumtheory.
 Open Scope Z_scope.
+
+(** * certificates are complete: a checked answer IS the gcd / root / logarithm / full power *)
+Theorem C12_gcd_ext_cert_complete : forall a b g s t,
+  gcd_ext_cert a b g s t = true -> g = Z.gcd a b /\ s * a + t * b = g.
+Proof. exact gcd_ext_cert_complete. Qed.
+Print Assumptions C12_gcd_ext_cert_complete.
+
+Theorem C12_gcd_spec_ok : forall a b g, gcd_spec a b = Ok g ->
+  0 <= g /\ (g | a) /\ (g | b) /\ (forall d, (d | a) -> (d | b) -> (d | g)).
+Proof. exact gcd_spec_ok. Qed.
+Print Assumptions C12_gcd_spec_ok.
+
+Theorem C12_gcd_spec_panic : forall a b, (exists r, gcd_spec a b = Panic r) <-> a = 0 /\ b = 0.
+Proof. exact gcd_spec_panic. Qed.
+Print Assumptions C12_gcd_spec_panic.
+
+Theorem C12_root_cert_meaning : forall n x r, root_cert n x r = true -> 0 <= r /\ r ^ n <= x < (r + 1) ^ n.
+Proof. exact root_cert_meaning. Qed.
+Print Assumptions C12_root_cert_meaning.
+
+Theorem C12_root_cert_unique : forall n x r r', 0 < n ->
+  root_cert n x r = true -> root_cert n x r' = true -> r = r'.
+Proof. exact root_cert_unique. Qed.
+Print Assumptions C12_root_cert_unique.
+
+Theorem C12_root_cert_sqrt : forall x r, root_cert 2 x r = true -> r = Z.sqrt x.
+Proof. exact root_cert_sqrt. Qed.
+Print Assumptions C12_root_cert_sqrt.
+
+Theorem C12_sqrt_rem_spec_ok : forall x, 0 <= x ->
+  let '(s, r) := sqrt_rem_spec x in 0 <= s /\ s * s + r = x /\ 0 <= r <= 2 * s.
+Proof. exact sqrt_rem_spec_ok. Qed.
+Print Assumptions C12_sqrt_rem_spec_ok.
+
+Theorem C12_root_rem_cert_meaning : forall n x r e, root_rem_cert n x r e = true ->
+  0 <= r /\ r ^ n <= x < (r + 1) ^ n /\ e = x - r ^ n /\ 0 <= e.
+Proof. exact root_rem_cert_meaning. Qed.
+Print Assumptions C12_root_rem_cert_meaning.
+
+Theorem C12_iroot_cert_meaning : forall n x r, iroot_cert n x r = true ->
+  Z.abs r ^ n <= Z.abs x < (Z.abs r + 1) ^ n /\ 0 <= r * x.
+Proof. exact iroot_cert_meaning. Qed.
+Print Assumptions C12_iroot_cert_meaning.
+
+Theorem C12_iroot_cert_unique : forall n x r r', 0 < n ->
+  iroot_cert n x r = true -> iroot_cert n x r' = true -> r = r'.
+Proof. exact iroot_cert_unique. Qed.
+Print Assumptions C12_iroot_cert_unique.
+
+Theorem C12_root_panic_documented : forall n x r, root_panic n x = Some r ->
+  (r = RootZeroth /\ n = 0) \/ (r = RootNegative /\ x < 0 /\ Z.even n = true).
+Proof. exact root_panic_documented. Qed.
+Print Assumptions C12_root_panic_documented.
+
+Theorem C12_ilog_cert_meaning : forall x b e, ilog_cert x b e = true -> 0 <= e /\ b ^ e <= Z.abs x < b ^ (e + 1).
+Proof. exact ilog_cert_meaning. Qed.
+Print Assumptions C12_ilog_cert_meaning.
+
+Theorem C12_ilog_cert_unique : forall x b e e', 2 <= b ->
+  ilog_cert x b e = true -> ilog_cert x b e' = true -> e = e'.
+Proof. exact ilog_cert_unique. Qed.
+Print Assumptions C12_ilog_cert_unique.
+
+Theorem C12_remove_cert_meaning : forall x f e rest, remove_cert x f e rest = true ->
+  0 <= e /\ rest * f ^ e = x /\ rest mod f <> 0.
+Proof. exact remove_cert_meaning. Qed.
+Print Assumptions C12_remove_cert_meaning.
+
+Theorem C12_remove_cert_unique : forall x f e rest e' rest', 2 <= f -> x <> 0 ->
+  remove_cert x f e rest = true -> remove_cert x f e' rest' = true -> e = e' /\ rest = rest'.
+Proof. exact remove_cert_unique. Qed.
+Print Assumptions C12_remove_cert_unique.
+
+Theorem C12_remove_spec_ok : forall x f e rest, 0 <= x -> remove_spec x f = Some (e, rest) ->
+  remove_cert x f e rest = true.
+Proof. exact remove_spec_ok. Qed.
+Print Assumptions C12_remove_spec_ok.
+
+Theorem C12_remove_none_documented : forall x f, 0 <= x -> 0 <= f ->
+  (remove_spec x f = None <-> x = 0 \/ f = 0 \/ f = 1).
+Proof. exact remove_none_documented. Qed.
+Print Assumptions C12_remove_none_documented.
+
+(** * the bracket decision used to judge log2_bounds answers is sound *)
+Theorem C12_log2_lb_dec_sound : forall prec m k p q b, 0 <= p -> 0 <= q ->
+  log2_lb_dec prec m k p q = Some b -> (if b then log2_lb_holds m k p q else ~ log2_lb_holds m k p q).
+Proof. exact log2_lb_dec_sound. Qed.
+Print Assumptions C12_log2_lb_dec_sound.
+
+Theorem C12_log2_lb_exact_spec : forall m k p q, log2_lb_exact m k p q = true <-> log2_lb_holds m k p q.
+Proof. exact log2_lb_exact_spec. Qed.
+Print Assumptions C12_log2_lb_exact_spec.
+
+(** * as-is model of UBig::nth_root / IBig::nth_root / IBig::cbrt (Newton, first up then down) *)
+Theorem C12_newton_root_correct : forall x n, 0 < x -> 2 <= n -> forall fuel r,
+  newton_root fuel x n = Ok r -> 0 < r /\ r ^ n <= x < (r + 1) ^ n.
+Proof. exact newton_root_correct. Qed.
+Print Assumptions C12_newton_root_correct.
+
+Theorem C12_newton_root_terminates : forall x n, 0 < x -> 2 <= n -> forall fuel,
+  x + 2 <= Z.of_nat fuel -> exists r, newton_root fuel x n = Ok r.
+Proof. exact newton_root_terminates. Qed.
+Print Assumptions C12_newton_root_terminates.
+
+Theorem C12_nth_root_asis_correct : forall fuel x n r, 0 <= x -> 0 < n ->
+  nth_root_asis fuel x n = Ok r -> root_cert n x r = true.
+Proof. exact nth_root_asis_correct. Qed.
+Print Assumptions C12_nth_root_asis_correct.
+
+Theorem C12_nth_root_asis_panics : forall fuel x n r, nth_root_asis fuel x n = Panic r -> r = RootZeroth /\ n = 0.
+Proof. exact nth_root_asis_panics. Qed.
+Print Assumptions C12_nth_root_asis_panics.
+
+Theorem C12_inth_root_asis_correct : forall fuel x n r, 0 <= n ->
+  inth_root_asis fuel x n = Ok r -> iroot_cert n x r = true.
+Proof. exact inth_root_asis_correct. Qed.
+Print Assumptions C12_inth_root_asis_correct.
+
+Theorem C12_inth_root_asis_panics : forall fuel x n r, inth_root_asis fuel x n = Panic r -> root_panic n x = Some r.
+Proof. exact inth_root_asis_panics. Qed.
+Print Assumptions C12_inth_root_asis_panics.
+
+Theorem C12_icbrt_asis_eq : forall fuel x, icbrt_asis fuel x = inth_root_asis fuel x 3.
+Proof. exact icbrt_asis_eq. Qed.
+Print Assumptions C12_icbrt_asis_eq.
+
+(** repaired defects F01 / F02 stay refuted *)
+Theorem C12_nth_root_prefix_refuted : exists fuel x n r, nth_root_prefix fuel x n = Ok r /\ root_cert n x r = false.
+Proof. exact nth_root_prefix_refuted. Qed.
+Print Assumptions C12_nth_root_prefix_refuted.
+
+Theorem C12_icbrt_prefix_refuted : exists fuel x, icbrt_prefix fuel x = Panic RootNegative /\ root_panic 3 x = None.
+Proof. exact icbrt_prefix_refuted. Qed.
+Print Assumptions C12_icbrt_prefix_refuted.
+
+(** * sqrt_rem_large: pre-shift / post-shift around the kernel (any even word size) *)
+Theorem C12_sqrt_rem_post_correct : forall w, 2 <= w -> forall n x h s' r', 0 <= x -> 0 <= n ->
+  0 <= h <= w - 1 -> 0 <= s' < (2 ^ w) ^ n ->
+  s' * s' + r' = x * 2 ^ (2 * h) -> 0 <= r' <= 2 * s' ->
+  sqrt_rem_post w n (2 * h) s' r' = sqrt_rem_spec x.
+Proof. exact sqrt_rem_post_correct. Qed.
+Print Assumptions C12_sqrt_rem_post_correct.
+
+Theorem C12_sqrt_shift_bounds : forall w len lz, 0 <= lz <= w - 1 -> w mod 2 = 0 -> 2 <= w ->
+  exists h, sqrt_shift w len lz = 2 * h /\ 0 <= h <= w - 1.
+Proof. exact sqrt_shift_bounds. Qed.
+Print Assumptions C12_sqrt_shift_bounds.
+
+(** repaired defect F03 stays refuted (shift > WORD_BITS instead of >=) *)
+Theorem C12_sqrt_rem_large_prefix_refuted :
+  sqrt_rem_large_gen false 64 (2 ^ 191 + 12345) <> sqrt_rem_spec (2 ^ 191 + 12345) /\
+  sqrt_rem_large_gen true 64 (2 ^ 191 + 12345) = sqrt_rem_spec (2 ^ 191 + 12345).
+Proof. exact sqrt_rem_large_prefix_refuted. Qed.
+Print Assumptions C12_sqrt_rem_large_prefix_refuted.
+
+(** * the three estimate-then-correct logarithm loops of integer/src/log.rs, for ANY estimate *)
+Theorem C12_log_large_asis_correct : forall target base, 2 <= base -> 1 <= target -> forall fuel est0 e p,
+  log_large_asis fuel est0 target base = Ok (e, p) -> ilog_cert target base e = true /\ p = base ^ e.
+Proof. exact log_large_asis_correct. Qed.
+Print Assumptions C12_log_large_asis_correct.
+
+Theorem C12_log_large_loop_terminates : forall target base, 2 <= base -> 1 <= target -> forall fuel est est_pow,
+  1 <= est_pow -> Z.max 0 (target - est_pow) < Z.of_nat fuel ->
+  exists r, log_large_loop fuel target base est est_pow = Ok r.
+Proof. exact log_large_loop_terminates. Qed.
+Print Assumptions C12_log_large_loop_terminates.
+
+Theorem C12_log_dword_asis_correct : forall target base, 2 <= base -> 1 <= target -> forall fuel D est e p,
+  target < D -> 0 <= est ->
+  log_dword_asis fuel D est target base = Ok (e, p) -> ilog_cert target base e = true /\ p = base ^ e.
+Proof. exact log_dword_asis_correct. Qed.
+Print Assumptions C12_log_dword_asis_correct.
+
+Theorem C12_log_word_base_asis_correct : forall target base, 2 <= base -> 1 <= target ->
+  forall w, 0 < w -> forall wbase wexp, 0 <= wexp -> wbase = base ^ wexp -> wbase < 2 ^ w ->
+  forall fuel est e p, 2 <= wlen w target -> 0 <= est ->
+  log_word_base_asis fuel w est wexp target base = Ok (e, p) -> ilog_cert target base e = true /\ p = base ^ e.
+Proof. exact log_word_base_asis_correct. Qed.
+Print Assumptions C12_log_word_base_asis_correct.
+
+Theorem C12_ilog_shortcuts_correct : forall x b r, 0 <= x -> ilog_shortcuts x b = Some r ->
+  match r with
+  | Ok e => ilog_cert x b e = true
+  | Panic LogOperand => ilog_panic x b = true
+  | _ => False
+  end.
+Proof. exact ilog_shortcuts_correct. Qed.
+Print Assumptions C12_ilog_shortcuts_correct.
+
+(** * UBig::remove: power-of-two shortcut and square-and-divide *)
+Theorem C12_remove_asis_correct : forall fuel x f e rest, 0 <= x -> 0 <= f ->
+  remove_asis fuel x f = Ok (Some (e, rest)) -> remove_cert x f e rest = true.
+Proof. exact remove_asis_correct. Qed.
+Print Assumptions C12_remove_asis_correct.
+
+Theorem C12_remove_asis_none : forall fuel x f, 0 <= x -> 0 <= f ->
+  (remove_asis fuel x f = Ok None <-> x = 0 \/ f = 0 \/ f = 1).
+Proof. exact remove_asis_none. Qed.
+Print Assumptions C12_remove_asis_none.
+
+Theorem C12_remove_asis_terminates : forall fuel x f, 0 < x -> 2 <= f -> x < Z.of_nat fuel ->
+  remove_asis fuel x f <> OutOfFuel.
+Proof. exact remove_asis_terminates. Qed.
+Print Assumptions C12_remove_asis_terminates.
